@@ -38,6 +38,17 @@ type zzSource struct {
 	fail  bool
 }
 
+// zzHeaders: forwarded headers of one client; the hash identifies the header set.
+type zzHeaders struct {
+	who  string
+	hash uint64
+}
+
+func (h *zzHeaders) HeadersForSubgraph(subgraphName string) (http.Header, uint64) {
+	return http.Header{"X-Who": []string{h.who}}, h.hash
+}
+func (h *zzHeaders) HashAll() uint64 { return h.hash }
+
 func (s *zzSource) Load(ctx context.Context, headers http.Header, input []byte) ([]byte, error) {
 	s.calls++
 	verifYield() // the request is in flight: other goroutines may run here
@@ -47,7 +58,12 @@ func (s *zzSource) Load(ctx context.Context, headers http.Header, input []byte) 
 	if s.fail {
 		return nil, zzErrUpstream
 	}
-	return []byte(`{"data":{"value":"v"}}`), nil
+	// the subgraph's answer depends on the forwarded headers of the request it serves
+	who := "v"
+	if headers != nil && headers.Get("X-Who") != "" {
+		who = headers.Get("X-Who")
+	}
+	return []byte(`{"data":{"value":"` + who + `"}}`), nil
 }
 
 func (s *zzSource) LoadWithFiles(ctx context.Context, headers http.Header, input []byte, files []*httpclient.FileUpload) ([]byte, error) {
@@ -57,10 +73,16 @@ func (s *zzSource) LoadWithFiles(ctx context.Context, headers http.Header, input
 type zzWriter struct {
 	buf    bytes.Buffer
 	writes int
+	broken bool
 }
+
+var zzErrBrokenPipe = errors.New("write: broken pipe")
 
 func (w *zzWriter) Write(p []byte) (int, error) {
 	w.writes++
+	if w.broken {
+		return 0, zzErrBrokenPipe
+	}
 	return w.buf.Write(p)
 }
 
@@ -86,7 +108,7 @@ const zzAloneOK = `{"data":{"value":"v"}}`
 // in-flight fetch) within the preemption bound.
 func VerifC11Inbound(n, withCancel, withFail int) {
 	r := zzResolver(4)
-	ds := &zzSource{fail: withFail != 0 && nondetBool()}
+	ds := &zzSource{fail: withFail&1 != 0 && nondetBool()}
 	resp := zzResponse(ds, ast.OperationTypeQuery)
 	ids := make([]uint64, n)
 	for i := range ids {
@@ -99,6 +121,17 @@ func VerifC11Inbound(n, withCancel, withFail int) {
 	}
 	outs := make([]*zzWriter, n)
 	errs := make([]error, n)
+	// forwarded headers: two possible header sets, chosen by the solver per request (bit 2 of withFail)
+	hdrs := make([]*zzHeaders, n)
+	for i := range hdrs {
+		if withFail&4 != 0 && nondetBool() {
+			hdrs[i] = &zzHeaders{who: "bob", hash: 22}
+		} else if withFail&4 != 0 {
+			hdrs[i] = &zzHeaders{who: "alice", hash: 11}
+		}
+	}
+	// client 0's connection may be broken (bit 1 of withFail): its Write fails
+	broken0 := withFail&2 != 0 && nondetBool()
 	ctxs := make([]context.Context, n)
 	var cancel0 context.CancelFunc
 	for i := range ctxs {
@@ -109,7 +142,7 @@ func VerifC11Inbound(n, withCancel, withFail int) {
 	}
 	var wg sync.WaitGroup
 	for i := 0; i < n; i++ {
-		outs[i] = &zzWriter{}
+		outs[i] = &zzWriter{broken: broken0 && i == 0}
 		wg.Add(1)
 		go func(i int) {
 			defer wg.Done()
@@ -117,6 +150,9 @@ func VerifC11Inbound(n, withCancel, withFail int) {
 			ctx := NewContext(ctxs[i])
 			ctx.Request.ID = ids[i]
 			ctx.VariablesHash = 7
+			if hdrs[i] != nil {
+				ctx.SubgraphHeadersBuilder = hdrs[i]
+			}
 			_, errs[i] = r.ArenaResolveGraphQLResponse(ctx, resp, outs[i])
 		}(i)
 	}
@@ -134,13 +170,18 @@ func VerifC11Inbound(n, withCancel, withFail int) {
 	for i := 0; i < n; i++ {
 		own := withCancel != 0 && i == 0
 		if errs[i] != nil {
-			// a failure of the shared work this request would also have hit alone, or its own cancellation
-			okErr := (ds.fail && errs[i] == zzErrUpstream) || (own && errors.Is(errs[i], context.Canceled))
+			// a failure of the shared work this request would also have hit alone, its own cancellation,
+			// or its own broken connection
+			okErr := (ds.fail && errs[i] == zzErrUpstream) || (own && errors.Is(errs[i], context.Canceled)) || (broken0 && i == 0 && errs[i] == zzErrBrokenPipe)
 			verifAssert(okErr, "a request only fails with the upstream error or its own cancellation")
 			continue
 		}
 		got := outs[i].buf.String()
-		if got == zzAloneOK {
+		alone := zzAloneOK
+		if hdrs[i] != nil {
+			alone = `{"data":{"value":"` + hdrs[i].who + `"}}`
+		}
+		if got == alone {
 			verifCover("got the data it would get alone")
 			continue
 		}
